@@ -273,11 +273,12 @@ class Script(object):
 class CbProbe(object):
     """A done-callback that logs its invocation."""
 
-    def __init__(self, mc, label, raises=False):
+    def __init__(self, mc, label, raises=False, tag=None):
         self.mc = mc
         self.label = label
         self.n = 0
         self.raises = raises
+        self.tag = tag or ("cb-" + label)
         self.seen_done = []
 
     def __call__(self, f):
@@ -286,4 +287,4 @@ class CbProbe(object):
         self.seen_done.append(d)
         self.mc.emit("cb", cb=self.label, n=self.n, done=d, snap=snapshot(f))
         if self.raises:
-            raise E("cb-" + self.label)
+            raise E(self.tag)
